@@ -75,6 +75,7 @@ impl Scenario for Pairs {
         cov.probe_declare("obs_unknown_key_pressed_and_released");
         cov.probe_declare("obs_status_code_pressed");
         cov.probe_declare("quiescent_point_checked");
+        cov.probe_declare("keyboard_clear_in_the_session");
     }
     fn generate(&self, rng: &mut Rng, run: u64, tier: Tier) -> Trace {
         let mut cfg = Cfg::default();
@@ -103,6 +104,16 @@ impl Scenario for Pairs {
             Op::Key { pfx, code, .. } => c19_domain(&cfg, pfx, code),
             _ => false,
         });
+        // the host's watchdog may call Keyboard::clear() at any moment - before a sequence,
+        // between its bytes, with a few stray bits in the shift register; no fault, and it must not
+        // change what a sequence means
+        for o in ops.iter_mut() {
+            if let Op::Key { pfx, code, brk, .. } = o.op {
+                if rng.chance(1, 10) {
+                    o.op = Op::Key { pfx, code, brk, fault: BFault::ClearAt(rng.range(0, 2) as u8) };
+                }
+            }
+        }
         Trace { prop: "C19".into(), cfg, ops, seed: 0, run, expect: None }
     }
     fn execute(&self, trace: &Trace, env: &mut Env) -> Outcome {
@@ -119,12 +130,18 @@ impl Scenario for Pairs {
         // the host's decoder for the whole session (one long-lived object), next to the
         // fresh decoder that judges each sequence on its own
         let mut session = if cfg.obj == 1 { DynSet::via_default(set) } else { DynSet::new(set) };
+        // and the same bytes through a long-lived Keyboard, whose clear() the watchdog calls
+        let mut session_kb = KbAny::new(set, DynLayout::object(cfg.layout as usize % NLAYOUT_OBJS), pc_keyboard::HandleControl::Ignore);
         'ops: for (i, top) in trace.ops.iter().enumerate() {
             env.cur_op = i;
             last_t = top.t.max(last_t);
             let (pfx, code, brk) = match top.op {
                 Op::Key { pfx, code, brk, .. } => (pfx, code, brk),
                 _ => continue,
+            };
+            let clear_at: Option<usize> = match top.op {
+                Op::Key { fault: BFault::ClearAt(n), .. } => Some(n as usize),
+                _ => None,
             };
             if !c19_domain(cfg, pfx, code) {
                 continue;
@@ -145,6 +162,47 @@ impl Scenario for Pairs {
                 } else {
                     r = x;
                 }
+            }
+            // the Keyboard in the same session, with the watchdog's clear()
+            let mut rk = Res::Pending;
+            let mut kb_prefix_ok = true;
+            for (j, b) in bytes.iter().enumerate() {
+                if clear_at.map(|n| n.min(bytes.len() - 1)) == Some(j) {
+                    if (i + j) % 2 == 1 {
+                        // a frame that broke off after a few bits
+                        for bit in [false, true, true] {
+                            let _ = session_kb.add_bit(bit);
+                            env.cov.api_calls += 1;
+                        }
+                    }
+                    session_kb.clear();
+                    env.cov.api_calls += 1;
+                    env.cov.probe("keyboard_clear_in_the_session");
+                }
+                let x = Res::of(&session_kb.add_byte(*b));
+                env.cov.api_calls += 1;
+                if j + 1 < bytes.len() {
+                    if x != Res::Pending {
+                        kb_prefix_ok = false;
+                    }
+                } else {
+                    rk = x;
+                }
+            }
+            if rk != r_fresh || !kb_prefix_ok {
+                violation = Some(Violation {
+                    oracle: "sequence-means-the-same-in-a-session".into(),
+                    op_index: i,
+                    detail: format!(
+                        "Set {} sequence {:02X?} decodes as {} on its own but as {} through the session's Keyboard::add_byte (clear() is called by the watchdog now and then){}",
+                        set,
+                        bytes,
+                        r_fresh.show(),
+                        rk.show(),
+                        if kb_prefix_ok { "" } else { "; a prefix byte already produced a result" }
+                    ),
+                });
+                break 'ops;
             }
             if r != r_fresh || !sess_prefix_ok {
                 violation = Some(Violation {
